@@ -283,6 +283,15 @@ pub(crate) fn validate_subscribe_packet_outbound(packet: &SubscribePacket) -> Gn
         return Err(GneissError::new_packet_validation(PacketType::Subscribe, message));
     }
 
+    if let Some(subscription_identifier) = packet.subscription_identifier {
+        // MQTT5 3.8.2.1.2: 1 to 268,435,455; "It is a Protocol Error if the Subscription Identifier has a value of 0"
+        if subscription_identifier == 0 || subscription_identifier as usize > MAXIMUM_VARIABLE_LENGTH_INTEGER {
+            let message = "validate_subscribe_packet_outbound - subscription identifier out of range";
+            error!("{}", message);
+            return Err(GneissError::new_packet_validation(PacketType::Subscribe, message));
+        }
+    }
+
     validate_user_properties(&packet.user_properties, PacketType::Subscribe, "validate_subscribe_packet_outbound")?;
 
     Ok(())
